@@ -23,6 +23,39 @@ CHECKS = {
  'C10': ('fault_enumeration', '4 C10', TECH + 'reset() injected at every position of a pre-history with clock faults (also before the first update and twice); compared step by step with a freshly constructed real monitor',
          'Per sampled (online specification incl. sub-specs / pastified / dense, pre-history, post sequence) reset() is injected at every position 0..m; post outputs and the sampling-violation counter must equal those of a fresh monitor.',
          'Oracle is a fresh real monitor; only supported specifications.'),
+ 'C06': ('exploration', '4 C06', TECH + 'IA-STL monitors of all four kinds stepped/chunked under every kind of i/o assignment and semantics; refinement against RefDiscrete/RefDense with the predicate hook of the statement',
+         'Seeded exploration of (specification, i/o assignment, semantics, monitor kind, data, stepping/chunking); the result must equal the reference with the insensitive-predicate rule; STANDARD must ignore declarations.',
+         'Trusts the reference models and the reading that an undeclared variable is an output.'),
+ 'C07': ('exploration', '4 C07', TECH + 'bounded sensor-noise injection (|eps| < 0.999|rho|, adversarial and random) on the recorded trace; three-valued Boolean reference (RefBool)',
+         'Seeded exploration of (iff/xor-free specification, monitor kind, data); sign of the reported robustness versus a Kleene Boolean STL evaluator, and verdict stability of RefBool and of the re-run monitor under injected noise below |rho|.',
+         'RefBool is the reference evaluator over {-1,0,+1}; nothing is claimed at rho = 0.'),
+ 'C08': ('exploration', '4 C08', TECH + 'fleet of real monitors under equivalent unit notations / sampling-period spellings fed the same simulated stream (offline, online, pastified, dense); non-multiple bounds as an injected configuration fault',
+         'Seeded exploration of (specification, tick, fleet of equivalent notations, mode, data): identical outputs across the fleet at every step; bounds that are not multiples of the period must raise RTAMTException and never yield a value.',
+         'Fleet members are compared with each other; only finite-decimal spellings.'),
+ 'C09': ('exploration', '4 C09', TECH + 'modular and inlined real monitors of the same kind in lock-step along the same simulated history (stepped / chunked)',
+         'Seeded exploration of (specification, decomposition into sub-specs and declared constants, kind, data, schedule): identical outputs at every step.',
+         'Both sides are real monitors; NaN/overflow scenarios discarded.'),
+ 'C11': ('exploration', '4 C11', TECH + 'seeded interleaving of operations of 2-4 co-hosted specification objects that share variable names and caller data objects; argument snapshots; solo replays; fresh interpreters under other PYTHONHASHSEED values',
+         'Seeded exploration of (co-hosted objects, shared data, interleaving): arguments unchanged (value and identity), outputs equal solo runs, re-evaluation repeatable, observations identical under other hash seeds (sampled runs + self-test).',
+         'Hash-seed leg on ~2.5% of the runs plus the determinism self-test of every check.'),
+ 'C12': ('exploration', '4 C12', TECH + 'stand-alone real monitors of every named sub-formula stepped in lock-step with the parent monitor; get_value read after every update',
+         'Seeded exploration of (modular specification, kind incl. pastified, data): get_value of inputs returns the supplied data, get_value of every name equals the stand-alone monitor at every step.',
+         'Oracle is a stand-alone real monitor per name.'),
+ 'C13': ('fault_enumeration', '4 C13', TECH + 'sensor-clock fault sequences (gap classes inside/below/above/edge/zero/negative/lost) enumerated up to a length bound per sampled configuration; exact-rational counter model',
+         'Per sampled (period, units, tolerance) every gap-class sequence up to length 3 (quick) / 4 (thorough) plus sampled longer ones; counter after every update and after a first evaluate() equals RefCounter; outputs unaffected by jitter.',
+         'Edge classes only with dyadic arithmetic; otherwise a relative margin of 1e-3 from the tolerance edges.'),
+ 'C16': ('fault_enumeration', '4 C16', TECH + 'log truncation injected at every sample index (discrete) / every common cut and sampled per-variable cuts (dense); real offline monitor on prefix vs extension',
+         'Per sampled (specification without unbounded future, log) the truncation point is enumerated; values with t + h inside the prefix must not change.',
+         'Horizon from RefHorizon; dense sensors start at 0 when bounded operators are present (F14a).'),
+ 'C17': ('exploration', '4 C17', TECH + 'degenerate data shapes as injected faults (one-sample traces, surplus variables, permuted inputs, empty batches) and injected unsupported constructs; exception classification against a support table; the same probe runs inside every other check',
+         'Seeded exploration of (kind, pastify, supported or unsupported specification, degenerate shape): supported use returns normally, unsupported constructs raise RTAMTException no later than the first evaluation and never yield a value.',
+         'RefSupport table in sim/props/c17.py; well-formed data guaranteed by the reference evaluators.'),
+ 'C18': ('exploration', '4 C18', TECH + 'both sides of each law hosted as two real monitors of the same kind kept in lock-step along the same simulated history / chunking',
+         'Seeded exploration of (law, operands, bounds, kind, data, schedule): identical signals of the two sides.',
+         'No reference model; kinds that support both sides only.'),
+ 'C20': ('exploration', '4 C20', TECH + 'corruption of every sample outside the explanation (extremes, predicate thresholds, random) injected after explain(); RefDiscrete and the real monitor decide whether the corrupted trace is satisfied',
+         'Seeded exploration of (specification in the explainer fragment, trace): for violated traces 24 corruptions of the unreported samples must not make rho(0) > 0; for satisfied traces nothing may be reported.',
+         'Counterexample only when rho(0) > 0 strictly by both RefDiscrete and the real monitor; default sampling period and unit-less bounds.'),
 }
 NA = {
  'C14': 'parse() is a pure function of one string: no schedule, clock, state or fault dimension for a simulator to own (DESIGN 2).',
